@@ -382,6 +382,14 @@ def e5(prog, ctx):
            and not any(a.k == "UnaryExprOrTypeTraitExpr" for a in x.ancestors())]
     if not idx:
         ctx.fail("E5", "econf_errString indexes the table", es.where, "messages[] is not indexed", key="errstring-index")
+    from rules import common as _c5
+    srch = _c5.searched_message_table(prog, es)
+    if srch is not None:
+        if srch[0]:
+            ctx.ok("E5", "econf_errString selects the text by its argument", srch[2].where, srch[1])
+        else:
+            ctx.fail("E5", "econf_errString selects the text by its argument", srch[2].where, srch[1], key="errstring-index")
+        return
     for x in idx:
         if render(x.children[1]) != p:
             ctx.fail("E5", "econf_errString indexes the table by its argument", x.where, "index is %s" % render(x.children[1]), key="errstring-index")
